@@ -93,11 +93,19 @@ class Rules(FDE.Rules):
         ticking = False
         Helpers = (NodeCount, NodesWorlds, WorldIndex)
 
-        def _get_node_targets(self, node, branch, /):
-            # Only count least-applied-to nodes
-            if not self[NodeCount].isleast(node, branch):
-                return
+        def _get_targets(self, branch, /):
+            # Only count least-applied-to nodes, among those that have a target.
+            # A node with nothing left to apply to must not block the others.
+            targets = tuple(super()._get_targets(branch))
+            if len(targets) > 1:
+                counts = self[NodeCount][branch]
+                least = min(counts[target.node] for target in targets)
+                targets = tuple(
+                    target for target in targets
+                    if counts[target.node] == least)
+            return targets
 
+        def _get_node_targets(self, node, branch, /):
             s = self.sentence(node)
             si = s.lhs
             if self.new_negated(self.negated):
